@@ -460,7 +460,7 @@ spifmem_realloc(const char *var, const char *filename, unsigned long line, void 
 
     D_MEM(("Variable %s (%10p -> %lu) at %s:%lu\n", var, ptr, (unsigned long) size, NONULL(filename), line));
     if (!ptr) {
-        temp = (void *) spifmem_malloc(filename, line, size);
+        temp = (size == 0) ? (NULL) : ((void *) spifmem_malloc(filename, line, size));
     } else if (size == 0) {
         spifmem_free(var, filename, line, ptr);
         temp = NULL;
